@@ -255,7 +255,9 @@ def run_assign(case, stt):
 def copy_case(draw):
     spec = draw(G.signal_spec(nmin=0, nmax=6, nchan_max=4, max_trailing=1))
     return {"sig": spec, "how": draw(st.sampled_from(["like", "like_data", "pickle", "compute", "persist", "to_dask_array", "rechunk", "rechunk_arg",
-                                                      "dask_pickle", "dask_compute", "like_other_class"]))}
+                                                      "dask_pickle", "dask_compute", "like_other_class"])),
+            # history: after the first copy one attribute of the ORIGINAL is re-assigned and the copy is taken again
+            "again": draw(st.sampled_from([None, "pol_type", "center_freq", "start_time", "freq_align", "meta", "sample_rate"])), "t": draw(G.time0())}
 
 
 def run_copy(case, stt):
@@ -310,6 +312,29 @@ def run_copy(case, stt):
     stt.nt()
     stt.label(how)
     stt.label(spec["cls"])
+    ag = case.get("again")
+    if ag and not case.get("_second"):
+        with lib("assigning " + ag):
+            if ag == "pol_type" and isinstance(z, pb.DualPolarizationSignal):
+                z.pol_type = "circular" if z.pol_type == "linear" else "linear"
+            elif ag == "center_freq" and isinstance(z, pb.RadioSignal):
+                z.center_freq = z.center_freq * 1.5 + z.chan_bw
+            elif ag == "freq_align" and isinstance(z, pb.RadioSignal):
+                z.freq_align = "top" if z.freq_align != "top" else "bottom"
+            elif ag == "start_time":
+                z.start_time = G.mk_time(case["t"])
+            elif ag == "meta":
+                z.meta = {"assigned": [1, 2]}
+            elif ag == "sample_rate" and not isinstance(z, pb.BasebandSignal):
+                z.sample_rate = z.sample_rate * 3
+            else:
+                return
+        G.pin(z)
+        try:
+            run_copy(dict(case, _second=True), stt)  # the same copy of the same object again: must show the current attributes
+        finally:
+            G.unpin()
+        stt.label("copy_assign_copy_" + ag)
 
 
 # -- objects produced by library operations ---------------------------------------------------------------------
